@@ -6,7 +6,9 @@ from hypothesis import strategies as st
 from vf import gen
 from vf.budget import Budget, compare_equal
 from vf.core import Clause, Property, Violation
-from vf.osk import eff_tau, rate_values
+from vf.league import TwinLeague, twin_class
+from vf.osk import eff_tau, guarded, mk_model, mk_teams, rate_values, vals
+from vf.stateful import machine_factory, replayer
 
 
 def _first_diff(a, b):
@@ -40,6 +42,33 @@ def check_encodings(case, ctx):
             raise Violation("enc:" + kind, f"{cfg['kind']} classes={classes} encoding {frag!r} differs from ranks={classes}: {_first_diff(res, canon)}")
         if enc_nontrivial(frag) and (len(set(classes)) < len(classes) or classes != sorted(classes)):
             nt = True
+    # the caller keeps ONE list object: rated, rated again, and only then negated into the other selector.  (Every comparison above
+    # hands the library a freshly built list; a library that reorders or rewrites the list it was given is invisible to them.)
+    for frag, kind in case["encodings"]:
+        key = "ranks" if "ranks" in frag else "scores" if "scores" in frag else None
+        if key is None:
+            continue
+        kept = list(frag[key])
+
+        def run(k, lst):
+            m = mk_model(cfg)
+            kw = {o: v for o, v in opts.items() if v is not None}
+            kw[k] = lst
+            ctx.called()
+            return vals(guarded(m.rate, mk_teams(m, teams), what="rate", **kw))
+
+        first = run(key, kept)
+        again = run(key, kept)
+        if again != first or first != canon:
+            raise Violation("same-list-object-rated-twice", f"{cfg['kind']} {key}={frag[key]!r} (list now {kept!r}): the second call with the SAME list object differs: "
+                                                            f"{_first_diff(again, first if again != first else canon)}")
+        other = "scores" if key == "ranks" else "ranks"
+        neg = run(other, [-v for v in kept])
+        if neg != first:
+            raise Violation("negated-after-the-call", f"{cfg['kind']} {key}={frag[key]!r}: {other} built by negating the caller's list AFTER the call (list now {kept!r}) "
+                                                      f"differ: {_first_diff(neg, first)}")
+        ctx.label("kept-list:" + key)
+        break
     ctx.nontrivial_if(nt)
 
 
@@ -163,6 +192,25 @@ def anchor_cases(draw):
     return {"cfg": cfg, "teams": teams, "call": frag, "classes": classes, "meta": {"regime": regime, "enc": enc}}
 
 
+class _EncodingTwin(TwinLeague):
+    """Side A is told every outcome as ranks = dense tie classes, side B in a drawn encoding of the same weak order."""
+    WHAT = "encoding"
+
+    def side_calls(self, step):
+        opts = {k: v for k, v in step["opts"].items() if v is not None}
+        return [(self.models[0], dict(opts, ranks=list(step["classes"]))), (self.models[1], dict(opts, **step["frag"]))]
+
+    @classmethod
+    def extra_step(cls, draw, h, n, classes):
+        frag, kind = draw(gen.encodings(classes))
+        out = {"frag": frag, "enc": kind, "opts": draw(gen.call_options(h.cfg))}
+        if frag and draw(st.integers(0, 9)) == 0:
+            out["frag"] = dict(frag, number_types=draw(st.sampled_from(["int-subclass", "float-subclass", "both"])))
+        return out
+
+
+EncodingTwin = twin_class(_EncodingTwin, "EncodingTwin")
+
 PROPERTY = Property(
     pid="C03",
     clauses=[
@@ -176,6 +224,11 @@ PROPERTY = Property(
         Clause(name="tie-anchor", strategy=anchor_cases(), check=check_tie_anchor, quick=3000, thorough=50000,
                rule="PL / full pairing: identical teams whose rank values compare equal end with equal posteriors (numerical budget); "
                     "non-trivial = the equal values have different Python types (1 vs 1.0, 0 vs -0.0 vs False)"),
+        Clause(name="encoding-twin-leagues", kind="stateful", machine=machine_factory(EncodingTwin), check=replayer(EncodingTwin),
+               quick=320, thorough=6000, steps_quick=25, steps_thorough=100,
+               rule="rule-based machine: twin leagues of 4-10 rating objects play the same games (objects fed back); side A is told every outcome as "
+                    "ranks = dense tie classes, side B in a drawn encoding of the same weak order (any of the encodings above, per-call options "
+                    "equal on both sides); all (mu, sigma) identical after every game; non-trivial = >= 6 games with some player in >= 3"),
     ],
     rule="generated game + weak order + a set of encodings of that order; all encodings must give bit-identical (mu, sigma); plus a symmetry anchor for "
          "ties given through equal values of different types; non-trivial = float/bool/huge values on an order with a tie or a non-identity order; "
